@@ -87,6 +87,8 @@ structure KSt where
   out  : List String := []          -- reversed
   stepNo : Nat := 0                 -- event boundaries seen (step hook)
   bad  : Bool := false
+  threw : Bool := false                        -- run() left through its catch-all
+  thrown : Bool := false                       -- a handler threw: unwinding to run()'s catch-all
   pendFinish : Option (String × Bool) := none  -- resolver whose on_lookup must finish after the inline handler
   pendInv : List Compl := []                   -- handlers to be called inline by the current internal callback
   dead : List Nat := []             -- destroyed timer ids (never reused)
@@ -658,6 +660,7 @@ def doOp (p : KParams) (scn : Scn) (depth : Nat) (ctx : String) (op : List Strin
   let text := joinSp op
   let c := "C " ++ ctx ++ " "
   match op with
+  | ["throw"] => ({ s with thrown := true }).emit (c ++ "throw")
   | ["stop"] => ({ s with k := step p s.k .stop }).emit (c ++ "stop => -")
   | ["restart"] => ({ s with k := step p s.k .restart }).emit (c ++ "restart => -")
   | ["now"] => s.emit (c ++ "now => " ++ toString s.k.now)
@@ -731,7 +734,9 @@ def doOp (p : KParams) (scn : Scn) (depth : Nat) (ctx : String) (op : List Strin
 def doOps (p : KParams) (scn : Scn) (depth : Nat) (ctx : String) (ops : List (List String)) (s : KSt) : KSt :=
   match ops with
   | [] => s
-  | op :: rest => doOps p scn depth ctx rest (doOp p scn depth ctx op s)
+  | op :: rest =>
+    let s := doOp p scn depth ctx op s
+    if s.thrown then s else doOps p scn depth ctx rest s
 end
 
 /-- `poll()`: run ready handlers until none is left. Returns the count. -/
@@ -805,17 +810,47 @@ def pollLoop (p : KParams) (scn : Scn) : Nat → KSt → Nat → KSt × Nat
             | some nn => { s with hidden := s.hidden.filter (· != nn), pendNew := s.pendNew.filter (·.1 != t.h) }
             | none => s
           doOps p scn 8 h (scn.ops h) s
+      -- an exception leaves poll_one() at once: no step hook, no further handler
+      if s.thrown then (s, n) else
       -- step hook `after_handler`: scenario ops placed at this event boundary
       let s := { s with stepNo := s.stepNo + 1 }
       let sc := "s" ++ toString s.stepNo
       let s := doOps p scn 8 sc (scn.ops sc) s
+      if s.thrown then (s, n + 1) else
       pollLoop p scn f s (n + 1)
+
+/-- order of `std::map<endpoint, …>`: IPv4 before IPv6, then address, then port -/
+def epLe (a b : Ep) : Bool :=
+  if a.isV4 != b.isV4 then a.isV4
+  else if a.addr != b.addr then (if a.isV4 then ip4 a.addr ≤ ip4 b.addr else a.addr ≤ b.addr)
+  else a.port ≤ b.port
+
+def sortEps (l : List (Ep × String)) : List (Ep × String) :=
+  l.foldl (fun acc x =>
+    let (lo, hi) := acc.partition (fun y => epLe y.1 x.1)
+    lo ++ [x] ++ hi) []
+
+/-- the `catch (...)` block of `simulation::run()`: cancel every timer (a copy of the queue),
+    every bound TCP socket (`tcp::socket::cancel`, also for acceptors: their accepts are NOT
+    aborted), every bound UDP socket; stop; rethrow -/
+def runCatch (p : KParams) (s : KSt) : KSt :=
+  let s := s.k.tq.foldl (fun (s : KSt) (x : Int × Nat) => { s with k := step p s.k (.cancel x.2) }) s
+  let s := (sortEps s.net.reg.tcp).foldl (fun (s : KSt) (x : Ep × String) =>
+    match s.net.tcp? x.2 with
+    | some t => let r := t.cancel; applyNEffs p netFuel r.2 { s with net := s.net.setTcp x.2 r.1 }
+    | none => s) s
+  let s := (sortEps s.net.reg.udp).foldl (fun (s : KSt) (x : Ep × String) =>
+    match s.net.udp? x.2 with
+    | some u => let r := u.cancel x.2; applyNEffs p netFuel r.2 { s with net := s.net.setUdp x.2 r.1 }
+    | none => s) s
+  { s with k := step p s.k .stop, thrown := false, threw := true }
 
 /-- `simulation::run()` -/
 def runLoop (p : KParams) (scn : Scn) : Nat → KSt → Nat → KSt × Nat
   | 0, s, r => ({ s with bad := true }, r)
   | f + 1, s, ret =>
     let (s, n) := pollLoop p scn 100000 s 0
+    if s.thrown then (runCatch p s, ret + n) else
     let s := s.emit ("K idle t=" ++ toString s.k.now)
     let m := (advance p s.k).2
     let s := { s with k := step p s.k .advance }
@@ -828,7 +863,8 @@ def runTop (p : KParams) (scn : Scn) : List (List String) → KSt → KSt
   | ["run"] :: rest, s =>
     let s := s.emit "C top run"
     let (s, r) := runLoop p scn 100000 s 0
-    let s := s.emit ("R top run => n=" ++ toString r ++ " t=" ++ toString s.k.now)
+    let s := if s.threw then { s with threw := false }.emit ("R top run => throw t=" ++ toString s.k.now)
+             else s.emit ("R top run => n=" ++ toString r ++ " t=" ++ toString s.k.now)
     runTop p scn rest s
   | op :: rest, s => runTop p scn rest (doOp p scn 8 "top" op s)
 
